@@ -74,6 +74,10 @@ inductive Skipped (d : Src) (o : Oracle) (i : Nat) : Prop
 def EofInException (d : Src) (o : Oracle) : Prop :=
   ∃ sc, Reach d o sc ∧ sc.cur = d.size ∧ eofExc sc.step = true
 
+theorem not_eofInException (d : Src) (o : Oracle) : ¬ EofInException d o := by
+  rintro ⟨sc, _, _, h⟩
+  simp [eofExc, eofExceptions] at h
+
 /-- the schema library delimits bodies inside the input -/
 def OracleInside (d : Src) (o : Oracle) : Prop :=
   (∀ p k, o.schemaLen p = .len k → p + k ≤ d.size) ∧ (∀ p k, o.enumLen p = .len k → p + k ≤ d.size)
@@ -94,7 +98,7 @@ theorem noEnd_afterFirst_append {l : List Evp} {x : Evp} (h : NoEnd (afterFirst 
   induction l with
   | nil =>
     simp only [List.nil_append, afterFirst]
-    split <;> simp [NoEnd, afterFirst]
+    split <;> simp [NoEnd]
   | cons y r ih =>
     simp only [List.cons_append, afterFirst] at h ⊢
     by_cases hy : y.1.isBeginning = true
@@ -972,6 +976,7 @@ structure G (d : Src) (o : Oracle) (h : Nat) (acc : List Lexeme) (sc : Sc) : Pro
   reach : Reach d o sc
   tr : TrInv d o acc sc
   en : EndInv d o sc
+  accle : ∀ l ∈ acc, l.e1 ≤ h
 
 def optAcc (ol : Option Lexeme) (acc : List Lexeme) : List Lexeme :=
   match ol with
@@ -1053,9 +1058,9 @@ theorem event_tr {d o h acc} {sc sc' : Sc} {ev : Evp} {rest : List Evp} {ol : Op
     (hp : processEvent { sc with finds := rest } ev = .ok (ol, sc')) :
     (∃ h', G d o h' (optAcc ol acc) sc') ∧ sc'.finds = rest ∧ sc'.cur = sc.cur ∧
       (ol = none ↔ ev.1.isBeginning = true) := by
-  obtain ⟨h1, h2, h3, h4, _, h', hev, hb, hl, _⟩ := processEvent_inv hf g.st.ev hp
+  obtain ⟨h1, h2, h3, h4, _, h', hev, hb, hl, hm⟩ := processEvent_inv hf g.st.ev hp
   obtain ⟨hk1, hk2⟩ := processEvent_kind hp
-  refine ⟨⟨h', g.st.transfer h1 h2 h3 h4 hev hb hl, Reach.event g.reach hf hp, ⟨?_, ?_⟩, ?_⟩, hk1, h3, hk2⟩
+  refine ⟨⟨h', g.st.transfer h1 h2 h3 h4 hev hb hl, Reach.event g.reach hf hp, ⟨?_, ?_⟩, ?_, ?_⟩, hk1, h3, hk2⟩
   · rw [h1, h3]; exact g.tr.sign
   · intro i hi hsz
     rw [h3] at hi
@@ -1071,12 +1076,25 @@ theorem event_tr {d o h acc} {sc sc' : Sc} {ev : Evp} {rest : List Evp} {ol : Op
     rw [h3] at hdead
     rw [hl] at hbb
     exact g.en hO hdead b hbb
+  · cases ol with
+    | none =>
+      simp only at hm
+      subst hm
+      exact g.accle
+    | some l =>
+      simp only at hm
+      obtain ⟨hm1, hm2, hm3⟩ := hm
+      subst hm3
+      intro l0 hl0
+      rcases List.mem_cons.mp hl0 with rfl | hl0
+      · exact Nat.le_refl _
+      · exact Nat.le_trans (g.accle l0 hl0) (Nat.le_trans hm1 hm2.1)
 
 /-- the parameter bookkeeping of `Next` does not matter -/
 theorem G.params {d o h acc} {sc : Sc} (g : G d o h acc sc) (p : List (Nat × Nat)) :
     G d o h acc { sc with lastParams := p } :=
   ⟨g.st.transfer rfl rfl rfl rfl (by simpa [EvInv, Lof] using g.st.ev) rfl rfl, Reach.params p g.reach,
-   ⟨g.tr.sign, g.tr.cov⟩, g.en⟩
+   ⟨g.tr.sign, g.tr.cov⟩, g.en, g.accle⟩
 
 theorem drain_tr {d o} : ∀ (n : Nat) (h : Nat) (acc : List Lexeme) (sc sc' : Sc) (ol : Option Lexeme),
     G d o h acc sc → drainFinds n sc = .ok (ol, sc') →
@@ -1124,5 +1142,339 @@ theorem drain_tr {d o} : ∀ (n : Nat) (h : Nat) (acc : List Lexeme) (sc sc' : S
             have : afterFirst (ev :: rest) = rest := by simp [afterFirst, hb]
             rw [this]
             cases lex.ty <;> exact hfr
+
+/-! ### the shape of the event queue between the calls of `Next` -/
+
+/-- at the start of `Next`: no End is queued (so a queued Begin is the last queued event), or the end of
+input has been read and everything queued was found there -/
+def QInv (d : Src) (sc : Sc) : Prop :=
+  NoEnd sc.finds ∨ (d.size < sc.cur ∧ BeginsAt sc.finds d.size ∧ NoCtx sc.finds)
+
+/-- at the start of the byte loop -/
+def BL (d : Src) (sc : Sc) : Prop :=
+  sc.finds = [] ∨ (d.size < sc.cur ∧ BeginsAt (Lof sc) d.size ∧ NoCtx sc.finds)
+
+/-- when `Next` reports the end of the lexeme stream: whatever is still pending starts at the end of input -/
+def FinalQ (d : Src) (o : Oracle) (sc : Sc) : Prop :=
+  d.size < sc.cur ∧ NoCtx sc.finds ∧
+  ∀ x ∈ Lof sc, x.1.isBeginning = true → OracleInside d o → d.size ≤ x.2 ∨ EofInException d o
+
+theorem afterFirst_sub : ∀ (l : List Evp) (x : Evp), x ∈ afterFirst l → x ∈ l
+  | [], x, h => by simp [afterFirst] at h
+  | y :: r, x, h => by
+    simp only [afterFirst] at h
+    split at h
+    · exact List.mem_cons_of_mem _ (afterFirst_sub r x h)
+    · exact List.mem_cons_of_mem _ h
+
+/-- a queued Begin is preceded by no open Begin, and followed by its End or by nothing -/
+theorem begin_head {d o h} {sc : Sc} {ev : Evp} {rest : List Evp} (hI : EvInv d o h sc)
+    (hf : sc.finds = ev :: rest) (hb : ev.1.isBeginning = true) :
+    sc.evStack = [] ∧ (NoEnd rest → rest = []) := by
+  obtain ⟨hw, hst⟩ := hI
+  rcases hst with hst | ⟨b, hst, hbb⟩
+  · refine ⟨hst, ?_⟩
+    simp only [Lof, hst, hf, List.reverse_nil, List.nil_append] at hw
+    intro hne
+    cases hw with
+    | opn => rfl
+    | pair _ _ e rest' _ _ hg _ =>
+      have := (matches_begin_end hg.1).2.1
+      rw [hne e List.mem_cons_self] at this; cases this
+    | ctx _ _ _ h1 => rw [hb] at h1; cases h1
+  · simp only [Lof, hst, hf, List.reverse_cons, List.reverse_nil, List.nil_append, List.singleton_append] at hw
+    cases hw with
+    | pair _ _ _ _ _ _ hg _ =>
+      have := (matches_begin_end hg.1).2.2.1
+      rw [hb] at this; cases this
+    | ctx _ _ _ h1 => rw [hbb] at h1; cases h1
+
+theorem lastOpenA_mem {acc : Option Evp} {L : List Evp} {b : Evp} (h : lastOpenA acc L = some b) :
+    acc = some b ∨ b ∈ L := by
+  induction L generalizing acc with
+  | nil => exact .inl h
+  | cons y r ih =>
+    simp only [lastOpenA] at h
+    rcases ih h with h' | h'
+    · split at h'
+      · cases h'; exact .inr List.mem_cons_self
+      · cases h'
+    · exact .inr (List.mem_cons_of_mem _ h')
+
+theorem finalQ_of_BL {d o h acc} {sc : Sc} (g : G d o h acc sc) (hbl : BL d sc) (hdead : d.size < sc.cur) :
+    FinalQ d o sc := by
+  rcases hbl with hf | ⟨_, hb, hn⟩
+  · refine ⟨hdead, (by rw [hf]; intro x hx; cases hx), ?_⟩
+    intro x hx hxb hO
+    have hlof : Lof sc = sc.evStack.reverse := by simp [Lof, hf]
+    rcases g.st.ev.2 with hst | ⟨b, hst, _⟩
+    · rw [hlof, hst] at hx; cases hx
+    · rw [hlof, hst] at hx
+      simp only [List.reverse_cons, List.reverse_nil, List.nil_append, List.mem_singleton] at hx
+      subst hx
+      apply g.en hO hdead
+      rw [hlof, hst]
+      simp [lastOpen, lastOpenA, hxb]
+  · exact ⟨hdead, hn, fun x hx hxb _ => .inl (by rw [hb x hx hxb]; exact Nat.le_refl _)⟩
+
+theorem covCA_ge {size : Nat} {E : Prop} {i : Nat} : ∀ (L : List Evp) (acc : Option Evp),
+    (∀ x ∈ L, x.1.isBeginning = true → size ≤ x.2 ∨ E) → NoCtx L →
+    (∀ b, acc = some b → size ≤ b.2 ∨ E) → covCA acc L i → size ≤ i ∨ E := by
+  intro L
+  induction L with
+  | nil => intro acc _ _ _ h; cases h
+  | cons x r ih =>
+    intro acc hB hN hA h
+    simp only [covCA] at h
+    rcases h with h | h
+    · unfold itemCov at h
+      split at h
+      · cases h
+      · split at h
+        · cases acc with
+          | none => cases h
+          | some b =>
+            rcases hA b rfl with hb | hb
+            · exact .inl (Nat.le_trans hb h.1)
+            · exact .inr hb
+        · next h1 h2 =>
+          rcases hN x List.mem_cons_self with h3 | h3
+          · exact absurd h3 h1
+          · exact absurd h3 h2
+    · refine ih _ (fun y hy => hB y (List.mem_cons_of_mem _ hy)) (fun y hy => hN y (List.mem_cons_of_mem _ hy)) ?_ h
+      intro b hb
+      split at hb
+      · next hxb => cases hb; exact hB _ List.mem_cons_self hxb
+      · cases hb
+
+/-- at the end of the lexeme stream the pending events cover no byte of the file -/
+theorem final_cov {d o h acc} {sc : Sc} (g : G d o h acc sc) (hq : FinalQ d o sc) (hO : OracleInside d o)
+    (i : Nat) (hc : CovL (Lof sc) i) : d.size ≤ i ∨ EofInException d o := by
+  obtain ⟨_, hn, hb⟩ := hq
+  have hN : NoCtx (Lof sc) := by
+    intro x hx
+    simp only [Lof, List.mem_append, List.mem_reverse] at hx
+    rcases hx with hx | hx
+    · rcases g.st.ev.2 with hst | ⟨b, hst, hbb⟩
+      · rw [hst] at hx; cases hx
+      · rw [hst] at hx; simp only [List.mem_singleton] at hx; subst hx; exact .inl hbb
+    · exact hn x hx
+  rcases hc with hc | ⟨b, hb1, hb2⟩
+  · exact covCA_ge (Lof sc) none (fun x hx hxb => hb x hx hxb hO) hN (fun b hb' => by cases hb') hc
+  · have hbb := (lastOpen_some (h := 0) hb1).1
+    rcases lastOpenA_mem hb1 with h' | h'
+    · cases h'
+    · rcases hb b h' hbb hO with h'' | h''
+      · exact .inl (Nat.le_trans h'' hb2)
+      · exact .inr h''
+
+/-! ### the loops of `Next` and `lexAll` -/
+
+theorem suffix_Q {d : Src} {cur : Nat} {l l' : List Evp} (hsub : ∀ x ∈ l', x ∈ l)
+    (h : d.size < cur ∧ BeginsAt l d.size ∧ NoCtx l) : d.size < cur ∧ BeginsAt l' d.size ∧ NoCtx l' :=
+  ⟨h.1, fun x hx => h.2.1 x (hsub x hx), fun x hx => h.2.2 x (hsub x hx)⟩
+
+theorem byteLoop_tr {d o} (F : Facts) : ∀ (fuel : Nat) (h : Nat) (acc : List Lexeme) (sc sc' : Sc)
+    (ol : Option Lexeme), G d o h acc sc → BL d sc → byteLoop d o fuel sc = .ok (ol, sc') →
+    (∃ h', G d o h' (optAcc ol acc) sc') ∧ (ol ≠ none → QInv d sc') ∧ (ol = none → FinalQ d o sc') := by
+  intro fuel
+  induction fuel with
+  | zero => intro h acc sc sc' ol _ _ hb; simp [byteLoop] at hb
+  | succ fuel ih =>
+    intro h acc sc sc' ol g hbl hb
+    unfold byteLoop at hb
+    by_cases hc : sc.cur > d.size
+    · simp [hc] at hb
+      obtain ⟨rfl, rfl⟩ := hb
+      exact ⟨⟨h, g⟩, fun hne => absurd rfl hne, fun _ => finalQ_of_BL g hbl hc⟩
+    · simp only [hc, if_false] at hb
+      have hle : sc.cur ≤ d.size := Nat.le_of_not_gt hc
+      have hf0 : sc.finds = [] := by
+        rcases hbl with hf | ⟨hd, _⟩
+        · exact hf
+        · exact absurd hd hc
+      cases hs : byteStep d o sc with
+      | error s => simp [hs] at hb
+      | ok sc2 =>
+        simp only [hs] at hb
+        obtain ⟨htr, hen, hq⟩ := byteStep_tr F g.st g.reach g.tr hle hs
+        have hq := hq hf0
+        have g2 : G d o h acc sc2 :=
+          ⟨ScanLex.byteStep_inv F.lex g.st hle hs, Reach.step g.reach hle hs, htr, hen, g.accle⟩
+        cases hd : drainFinds sc2.finds.length sc2 with
+        | error s => simp [hd] at hb
+        | ok res =>
+          obtain ⟨ol3, sc3⟩ := res
+          obtain ⟨⟨h3, g3⟩, hcur3, hsome, hnone⟩ := drain_tr _ _ _ _ _ _ g2 hd
+          cases ol3 with
+          | some lex =>
+            simp [hd] at hb
+            obtain ⟨rfl, rfl⟩ := hb
+            refine ⟨⟨h3, g3⟩, fun _ => ?_, fun hn => by cases hn⟩
+            have hfin := hsome (by simp)
+            by_cases hc0 : curByte d sc = 0
+            · obtain ⟨hb1, hb2, hb3⟩ := hq.2 hc0
+              by_cases hlive : sc2.cur ≤ d.size
+              · have := hb3 hlive
+                refine .inl ?_
+                rw [hfin, this]
+                intro x hx; simp [afterFirst] at hx
+              · refine .inr ?_
+                rw [hfin, hcur3]
+                exact suffix_Q (afterFirst_sub _) ⟨Nat.lt_of_not_le hlive, hb1, hb2⟩
+            · exact .inl (by rw [hfin]; exact hq.1 hc0)
+          | none =>
+            simp only [hd] at hb
+            have hfin := hnone rfl
+            simp only [List.drop_length] at hfin
+            exact ih _ _ _ _ _ g3 (.inl hfin) hb
+
+theorem next_tr {d o} (F : Facts) {fuel h acc} {sc sc' : Sc} {ol : Option Lexeme}
+    (g : G d o h acc sc) (hq : QInv d sc) (hn : next d o fuel sc = .ok (ol, sc')) :
+    (∃ h', G d o h' (optAcc ol acc) sc') ∧ (ol ≠ none → QInv d sc') ∧ (ol = none → FinalQ d o sc') := by
+  unfold next at hn
+  cases hf : sc.finds with
+  | nil => simp only [hf] at hn; exact byteLoop_tr F _ _ _ _ _ _ g (.inl hf) hn
+  | cons ev rest =>
+    simp only [hf] at hn
+    cases hp : processEvent { sc with finds := rest } ev with
+    | error s => simp [hp] at hn
+    | ok res =>
+      obtain ⟨ol1, sc1⟩ := res
+      obtain ⟨⟨h', g1⟩, hfr, hcur, hkind⟩ := event_tr g hf hp
+      have hsub : ∀ x ∈ rest, x ∈ sc.finds := fun x hx => by rw [hf]; exact List.mem_cons_of_mem _ hx
+      cases ol1 with
+      | none =>
+        simp only [hp] at hn
+        have hb : ev.1.isBeginning = true := hkind.mp rfl
+        obtain ⟨hst0, hrest⟩ := begin_head g.st.ev hf hb
+        have hbl : BL d sc1 := by
+          rcases hq with hq | hq
+          · refine .inl ?_
+            rw [hfr]
+            exact hrest (fun x hx => hq x (hsub x hx))
+          · refine .inr ⟨by rw [hcur]; exact hq.1, ?_, ?_⟩
+            · have hl : Lof sc1 = Lof sc := by
+                unfold processEvent at hp
+                simp [hb] at hp
+                rw [← hp]
+                simp [Lof, hst0, hf]
+              rw [hl]
+              simp only [Lof, hst0, List.reverse_nil, List.nil_append]
+              exact hq.2.1
+            · rw [hfr]; exact fun x hx => hq.2.2 x (hsub x hx)
+        obtain ⟨hg, h1, h2⟩ := byteLoop_tr F _ _ _ _ _ _ g1 hbl hn
+        exact ⟨hg, h1, h2⟩
+      | some lex =>
+        simp [hp] at hn
+        obtain ⟨rfl, rfl⟩ := hn
+        refine ⟨⟨h', g1⟩, fun _ => ?_, fun hn => by cases hn⟩
+        rcases hq with hq | hq
+        · exact .inl (by rw [hfr]; exact fun x hx => hq x (hsub x hx))
+        · refine .inr ?_
+          rw [hfr, hcur]
+          exact suffix_Q hsub hq
+
+theorem inLex_reverse {acc : List Lexeme} {i : Nat} : InLex acc.reverse i ↔ InLex acc i := by
+  simp [InLex]
+
+theorem G.init {d o} (F : Facts) : G d o 0 [] Sc.init ∧ QInv d Sc.init := by
+  have hg := F.glob
+  simp only [globalOK, Bool.and_eq_true, Bool.not_eq_true'] at hg
+  refine ⟨⟨stRel_init init_ok, Reach.init, ⟨?_, ?_⟩, ?_, (fun l hl => by cases hl)⟩, .inl ?_⟩
+  · intro hs
+    have : isSign Sc.init.step = false := hg.1.2
+    rw [this] at hs; cases hs
+  · intro i hi; simp [Sc.init] at hi
+  · intro _ hd; simp [Sc.init] at hd
+  · intro x hx; simp [Sc.init] at hx
+
+theorem lexAll_tr {d o} (F : Facts) : ∀ (n : Nat) (h : Nat) (acc : List Lexeme) (sc : Sc),
+    G d o h acc sc → QInv d sc → (lexAll d o n sc acc).2.1 = none →
+    ∃ h' acc', (lexAll d o n sc acc).1 = acc'.reverse ∧ G d o h' acc' (lexAll d o n sc acc).2.2 ∧
+      FinalQ d o (lexAll d o n sc acc).2.2 := by
+  intro n
+  induction n with
+  | zero => intro h acc sc _ _ he; simp [lexAll] at he
+  | succ n ih =>
+    intro h acc sc g hq he
+    unfold lexAll at he ⊢
+    cases hn : next d o (4 * (d.size + 2)) sc with
+    | error s => simp [hn] at he
+    | ok res =>
+      obtain ⟨ol, sc'⟩ := res
+      obtain ⟨⟨h', g'⟩, hq1, hq2⟩ := next_tr F g hq hn
+      cases ol with
+      | none =>
+        exact ⟨h', acc, rfl, g', hq2 rfl⟩
+      | some lex =>
+        simp only [hn] at he ⊢
+        exact ih h' (lex :: acc) sc' g' (hq1 (by simp)) he
+
+/-- the run-level statement: at a clean end every byte of the file lies in a delivered lexeme or is skipped
+for a listed reason -/
+theorem final_bytes {d o h acc} {sc : Sc} (g : G d o h acc sc) (hfq : FinalQ d o sc) (hO : OracleInside d o)
+    (i : Nat) (hi : i < d.size) : InLex acc i ∨ Skipped d o i ∨ EofInException d o := by
+  rcases g.tr.cov i (Nat.lt_trans hi hfq.1) hi with hc | hc | hc | hc
+  · exact .inl hc
+  · rcases final_cov g hfq hO i hc with h1 | h1
+    · omega
+    · exact .inr (.inr h1)
+  · exact .inr (.inl hc)
+  · have := hfq.1; omega
+
+/-- every configuration of a run satisfies the invariants, for some list of delivered lexemes -/
+theorem reach_G {d o} (F : Facts) {sc : Sc} (hR : Reach d o sc) : ∃ h acc, G d o h acc sc := by
+  induction hR with
+  | init => exact ⟨0, [], (G.init F).1⟩
+  | @step sc sc' _ hle hs ih =>
+    obtain ⟨h, acc, g⟩ := ih
+    obtain ⟨htr, hen, _⟩ := byteStep_tr F g.st g.reach g.tr hle hs
+    exact ⟨h, acc, ScanLex.byteStep_inv F.lex g.st hle hs, Reach.step g.reach hle hs, htr, hen, g.accle⟩
+  | @event sc sc' ev rest lex _ hf hp ih =>
+    obtain ⟨h, acc, g⟩ := ih
+    obtain ⟨⟨h', g'⟩, _⟩ := event_tr g hf hp
+    exact ⟨h', _, g'⟩
+  | @params sc p _ ih =>
+    obtain ⟨h, acc, g⟩ := ih
+    exact ⟨h, acc, g.params p⟩
+
+theorem le_bndL {d o} : ∀ {h : Nat} {L : List Evp}, WfL d o h L → h ≤ bndL h L := by
+  intro h L w
+  induction w with
+  | nil h => exact Nat.le_refl _
+  | opn h b hb hh => simpa [bndL, evEnd, hb] using hh
+  | pair h b e rest hb hh hg _ ih =>
+    have he := (matches_begin_end hg.1).2.2.1
+    have : bndL h (b :: e :: rest) = bndL (e.2 + 1) rest := by simp [bndL, evEnd, he]
+    rw [this]
+    have := hg.2.1
+    omega
+  | ctx h x rest h1 _ hh _ _ ih =>
+    have : bndL h (x :: rest) = bndL (x.2 + 1) rest := by simp [bndL, evEnd, h1]
+    rw [this]
+    omega
+
+/-- **one byte step**: a byte that the step leaves behind uncovered is skipped for a listed reason (or it is
+the `'/'` after which the scanner waits in the annotation-sign state) -/
+theorem step_skips {d o} (F : Facts) {sc sc2 : Sc} (hR : Reach d o sc) (hlt : sc.cur < d.size)
+    (hs : byteStep d o sc = .ok sc2) (hadv : sc.cur < sc2.cur) (hunc : ¬ CovL (Lof sc2) sc.cur) :
+    Skipped d o sc.cur ∨ (isSign sc2.step = true ∧ sc2.cur = sc.cur + 1 ∧ d.get sc.cur = 47) := by
+  obtain ⟨h, acc, g⟩ := reach_G F hR
+  have hle : sc.cur ≤ d.size := Nat.le_of_lt hlt
+  obtain ⟨htr, _, _⟩ := byteStep_tr F g.st g.reach g.tr hle hs
+  rcases htr.cov sc.cur hadv hlt with hc | hc | hc | hc
+  · exfalso
+    obtain ⟨l, hl, hl1, hl2⟩ := hc
+    obtain ⟨ce, _, _, hg, _⟩ := g.st.ent hle
+    have h1 := g.accle l hl
+    have h2 := le_bndL g.st.ev.1
+    omega
+  · exact absurd hc hunc
+  · exact .inl hc
+  · refine .inr ⟨hc.1, hc.2.symm, ?_⟩
+    have := (htr.sign hc.1).2
+    rw [← hc.2] at this
+    simpa using this
 
 end JSight.ScanTrivia
